@@ -1053,7 +1053,7 @@ func r03OverlapOnInclusiveEdge(c *core.Ctx) {
 		if !ok {
 			return ord{}, false
 		}
-		switch onceStored(a) {
+		switch fr.callerValue(onceStored(a)) {
 		case line:
 			return ord{"L", kc.Int64(), ax}, true
 		case edge:
